@@ -17,18 +17,23 @@ CONSTANTS Sched,     \* <<[pat |-> <<input records>>, reps |-> Nat], ...>>
           Kind, P,   \* the indicator under the stream
           Samples    \* the steps at which the expectation is stated
 
+\* The schedule is copied into a variable once (Init): TLC re-evaluates an overridden constant at every reference,
+\* which made a period-1000 window cost minutes.
+VARIABLE sched
+
 SegLen(g) == Len(g.pat) * g.reps
 RECURSIVE TotalFrom(_)
-TotalFrom(j) == IF j > Len(Sched) THEN 0 ELSE SegLen(Sched[j]) + TotalFrom(j + 1)
+TotalFrom(j) == IF j > Len(sched) THEN 0 ELSE SegLen(sched[j]) + TotalFrom(j + 1)
 Total == TotalFrom(1)
 
 RECURSIVE SAt(_, _)
 MoveIn(in, d) == IF d = 0 THEN in
                  ELSE IF in.ty = "s" THEN [in EXCEPT !.x = @ + d]
                  ELSE [in EXCEPT !.o = @ + d, !.h = @ + d, !.l = @ + d, !.c = @ + d]
-SAt(j, r) == IF r <= SegLen(Sched[j])
-             THEN MoveIn(Sched[j].pat[((r - 1) % Len(Sched[j].pat)) + 1], Sched[j].ramp * ((r - 1) \div Len(Sched[j].pat)))
-             ELSE SAt(j + 1, r - SegLen(Sched[j]))
+SAt(j, r) == LET g == sched[j] IN
+             IF r <= SegLen(g)
+             THEN MoveIn(g.pat[((r - 1) % Len(g.pat)) + 1], g.ramp * ((r - 1) \div Len(g.pat)))
+             ELSE SAt(j + 1, r - SegLen(g))
 StreamAt(t) == SAt(1, t)
 
 IMin2(a, b) == IF a < b THEN a ELSE b
@@ -36,7 +41,7 @@ WindowAt(t, n) == LET k == IMin2(n, t) IN [i \in 1..k |-> StreamAt(t - k + i)]
 
 \* largest single-bar (3 x) money flow anywhere in the schedule: an upper bound of "since reset" (MFI conditioning)
 PatFlow(g) == FoldLeft(LAMBDA a, in : IMax(a, IF in.ty = "b" THEN Abs(Tp3(in) * in.v) ELSE 0), 0, g.pat)
-SchedFlow == FoldLeft(LAMBDA a, g : IMax(a, PatFlow(g)), 0, Sched)
+SchedFlow == FoldLeft(LAMBDA a, g : IMax(a, PatFlow(g)), 0, sched)
 
 \* the reference state that holds the window `pre` (all but the newest input of the window at t)
 StateOf(pre) ==
@@ -57,11 +62,11 @@ Expect(t) ==
         in |-> win[Len(win)]]          \* the input itself, so that the harness's expansion of the schedule is checked too
 
 ASSUME Memory(Kind, P) > 0
-ASSUME \A t \in Samples : t >= 1 /\ t <= Total
-ASSUME \A t \in Samples : PrintT(<<"EXPECT", ToJson(Expect(t))>>)
-ASSUME PrintT(<<"TOTAL", Total>>)
 
-VARIABLE dummy
-Init == dummy = 0
-Next == UNCHANGED dummy
+Init == sched = Sched
+Next == UNCHANGED sched
+\* evaluated once, on the only state
+EmitExpect == /\ \A t \in Samples : t >= 1 /\ t <= Total
+              /\ \A t \in Samples : PrintT(<<"EXPECT", ToJson(Expect(t))>>)
+              /\ PrintT(<<"TOTAL", Total>>)
 =============================================================================
